@@ -99,6 +99,8 @@ def unknowns_small_documents(seed):
         ('\\begin{uenv}t\\end{uenv} ', ['uenv']),
         ('\\TeX{} ', []), ('word ', []),
         ('\\footnote{\\uf} ', ['\\uf']),
+        # a definition written with comment-terminated lines, then a use
+        ('\\newcommand{%c\n\\md% name\n}{x} \\md{} ', []),
     ]
     n, fails = 0, []
     for ln in range(0, 5):
@@ -127,7 +129,7 @@ def unknowns_small_documents(seed):
             break
     return {'name': 'unknowns-list-on-small-documents', 'bounded': True,
             'bound': 'all documents of <= 3 pieces and a third of those with '
-                     '4 pieces over a catalogue of 9 pieces',
+                     '4 pieces over a catalogue of 10 pieces',
             'evaluations': n, 'failures': fails}
 
 
